@@ -4,6 +4,7 @@ import (
 	"encoding/json"
 	"fmt"
 	"reflect"
+	"strings"
 
 	ap "github.com/go-ap/activitypub"
 
@@ -30,7 +31,9 @@ func jsonEncode(entry string, v any) ([]byte, error) {
 // jsonDecode decodes b through the given entry; for "method" a fresh zero value of struct type t is the receiver.
 func jsonDecode(entry string, t reflect.Type, b []byte) (any, error) {
 	if entry == "pkg" {
-		return ap.UnmarshalJSON(b)
+		it, err := ap.UnmarshalJSON(b)
+		disturb(len(b))
+		return it, err
 	}
 	p := reflect.New(t)
 	u, ok := p.Interface().(json.Unmarshaler)
@@ -38,7 +41,26 @@ func jsonDecode(entry string, t reflect.Type, b []byte) (any, error) {
 		return nil, fmt.Errorf("*%s has no UnmarshalJSON", t.Name())
 	}
 	err := u.UnmarshalJSON(b)
+	disturb(len(b))
 	return p.Interface(), err
+}
+
+var disturbDocs = map[int][]byte{}
+
+// disturb decodes two unrelated documents (one at least n bytes long, one short) after a decode under test, so that a decoded
+// value that still refers to a buffer the decoder reuses shows up as a changed value when it is compared afterwards.
+func disturb(n int) {
+	size := 64
+	for size < n {
+		size *= 2
+	}
+	doc, ok := disturbDocs[size]
+	if !ok {
+		doc = []byte(`{"type":"Note","id":"https://disturb.example/1","name":"` + strings.Repeat("Z", size/2) + `","content":"` + strings.Repeat("Q", size) + `"}`)
+		disturbDocs[size] = doc
+	}
+	_, _ = ap.UnmarshalJSON(doc)
+	_, _ = ap.UnmarshalJSON([]byte(`{"type":"Like","summaryMap":{"en":"YYYYYYYY","fr":"WWWW"}}`))
 }
 
 // structNameOf returns the struct name behind a value (pointer or not), "" for nil, the Go type string otherwise.
